@@ -72,7 +72,7 @@ static void terminateHandler()
 static int watchdogSeconds()
 {
     const char* e = getenv("VERIF_WATCHDOG");
-    return e ? atoi(e) : 60;
+    return e ? atoi(e) : 20;
 }
 
 static void runEpisodes(const std::vector<std::string>& lines, long from)
@@ -230,6 +230,7 @@ int main(int argc, char** argv)
     shared->done = 0;
     long from = 0;
     long crashes = 0;
+    long timeouts = 0;
     while (from < static_cast<long>(lines.size()))
     {
         fflush(out);
@@ -261,10 +262,12 @@ int main(int argc, char** argv)
         fputc('\n', out);
         emitLine(o.str());
         ++crashes;
+        if (why == "timeout")
+            ++timeouts;
         from = shared->episode + 1;
         // a tree that crashes on a whole class of inputs would fork once per episode: enough is enough
         const char* cap = getenv("VERIF_MAX_CRASHES");
-        if (crashes >= (cap ? atol(cap) : 100))
+        if (crashes >= (cap ? atol(cap) : 100) || timeouts >= 3)      // a tree that hangs costs a watchdog period per episode
         {
             fprintf(stderr, "exec: stopped after %ld crashes; %zu episodes not executed\n", crashes, lines.size() - static_cast<size_t>(from));
             break;
